@@ -62,7 +62,56 @@ fn prepared(ctx: &Ctx, s: &dyn Subject, tag: u64, idx: u64) -> Option<(Val, Val,
     Some((v, exp, ref_bytes))
 }
 
+/// Defaults of added fields belong to the call that needs them: an expression that reads process state gives the state
+/// of *that* moment, one that creates an object gives a new object.  Nothing of an earlier decode — on this or another
+/// thread — may show in a later one.
+fn defaults_per_call(acc: &mut Acc) {
+    use desert::BinaryCodec;
+    use std::rc::Rc;
+    use std::sync::atomic::AtomicU32;
+    static PORT: AtomicU32 = AtomicU32::new(8080);
+    fn current_port() -> u32 {
+        PORT.load(Ordering::SeqCst)
+    }
+    #[derive(BinaryCodec)]
+    #[evolution(FieldAdded("port", current_port()), FieldAdded("tag", Rc::new(7u8)))]
+    struct Conf {
+        name: u8,
+        port: u32,
+        tag: Rc<u8>,
+    }
+    let old_data = [0u8, 5]; // version 0: only `name`
+    acc.case(Some(0xDEF0));
+    let (r, _) = sbase::monitored(None, || {
+        PORT.store(8080, Ordering::SeqCst);
+        let a: Conf = desert::deserialize(&old_data).map_err(|e| sbase::classify(&e))?;
+        PORT.store(80, Ordering::SeqCst);
+        let b: Conf = desert::deserialize(&old_data).map_err(|e| sbase::classify(&e))?;
+        // a thread that never decoded this type before, with yet another state
+        PORT.store(443, Ordering::SeqCst);
+        let c_port = std::thread::spawn(|| desert::deserialize::<Conf>(&[0u8, 5]).map(|c| c.port).map_err(|e| sbase::classify(&e))).join().unwrap()?;
+        PORT.store(8443, Ordering::SeqCst);
+        let d: Conf = desert::deserialize(&old_data).map_err(|e| sbase::classify(&e))?;
+        Ok((a.name, a.port, b.port, c_port, d.port, Rc::ptr_eq(&a.tag, &b.tag) || Rc::ptr_eq(&b.tag, &d.tag), Rc::strong_count(&a.tag)))
+    });
+    match r {
+        Call::Ok((5, 8080, 80, 443, 8443, false, 1)) => acc.count("defaults_evaluated_for_each_call"),
+        other => acc.violation(
+            "C18|defaults_per_call".to_string(),
+            J::obj()
+                .with("check", J::s("C18"))
+                .with("mode", J::s("call"))
+                .with("what", J::s("FieldAdded defaults that read process state / create an object, decoded four times (one of them on a fresh thread)"))
+                .with("expected", J::s("name 5, ports 8080 80 443 8443, distinct objects, strong count 1"))
+                .with("got", J::s(format!("{other:?}"))),
+        ),
+    }
+}
+
 pub fn c18(ctx: &mut Ctx, acc: &mut Acc) -> i32 {
+    if ctx.shard == 0 {
+        defaults_per_call(acc);
+    }
     let mode = ctx.extra.get("mode").cloned().unwrap_or_else(|| "storm".to_string());
     // the types of this process: derived declarations (fresh lazy statics each) first, then the catalogue
     let ids: Vec<String> = ctx.my_subjects(|s| s.id() != "BadEvolution").iter().map(|s| s.id().to_string()).collect();
